@@ -209,7 +209,14 @@ class StateSpaceBase(object):
             raise ValueError(
                 'Improper transfer function; require derivatives of input')
 
+        # Cancel common factors; the diagonal form is a minimal
+        # realisation with one state per pole.
         H = tf(b, a)
+        H = H.__class__(sym.cancel(H.sympy), **H.assumptions)
+        b = [x.sympy for x in H.b]
+        a = [x.sympy for x in H.a]
+        Nb = len(b)
+        Na = len(a)
 
         poles = H._ratfun.poles()
         for p in poles:
@@ -227,7 +234,7 @@ class StateSpaceBase(object):
 
         # FIXME
         if Na == Nb:
-            D[0, 0] = b[0]
+            D[0, 0] = b[0] / a[0]
         else:
             D[0, 0] = 0
 
